@@ -2,6 +2,7 @@ import LyModel.XPath.Eval
 import LyModel.XPath.FloatNum
 import LyModel.XPath.Set
 import LyModel.XPath.Canon
+import LyModel.Val.DrvBase
 /-!
 driver ops of component `xpath` (C08).  The driver is stateless, so every evaluation request carries the document:
 
@@ -27,12 +28,61 @@ def bstr (b : Bytes) : String := String.ofList (b.map fun x => Char.ofNat x.toNa
 /-- inverse of `bstr` -/
 def unbstr (s : String) : Bytes := s.toList.map fun c => UInt8.ofNat c.toNat
 
-/-- dump: one line per element `<depth> <module> <name> <kind> <value-hex> <basetype>` in document order -/
-def parseDump (b : Bytes) : Option Doc := do
+/-- `mod:name` split at the first colon -/
+def identOfTok (t : String) : Option Val.Ident.Ident :=
+  match t.splitOn ":" with
+  | m :: n :: r => some ⟨m.toUTF8.toList, (":".intercalate (n :: r)).toUTF8.toList⟩
+  | _ => none
+
+def stepsOf : List Step → Option (List (Axis × Test))
+  | [] => some []
+  | .mk ax t [] :: r => (stepsOf r).map ((ax, t) :: ·)
+  | _ => none
+
+/-- a leafref path without predicates (`Facts.lrefs`) -/
+def lrefOf (h : String) : Option (Bool × List (Axis × Test)) :=
+  match (Hex.dec h).bind Parse.parse with
+  | some (.path .root steps) => (stepsOf steps).map fun l => (true, l)
+  | some (.path .ctx steps) => (stepsOf steps).map fun l => (false, l)
+  | _ => none
+
+def nodeTyOf (d : String) : Option NodeTy :=
+  if d.startsWith "idref:" then
+    (((d.drop 6).toString.splitOn ",").mapM identOfTok).map NodeTy.idref
+  else (Val.Drv.parseTy d).map NodeTy.val
+
+/-- one `#…` header line of the dump (schema facts, see `Yang.lean`); unknown headers are ignored -/
+def addFact (f : Facts) (toks : List String) : Option Facts :=
+  match toks with
+  | "#mods" :: ms => some { f with mods := f.mods ++ ms.map (·.toUTF8.toList) }
+  | "#ident" :: id :: bases => do
+    let i ← identOfTok id
+    let bs ← bases.mapM identOfTok
+    pure { f with idctx := { f.idctx with defs := f.idctx.defs ++ [{ id := i, bases := bs }] } }
+  | "#enum" :: path :: items => do
+    let its ← items.mapM fun it =>
+      match it.splitOn "=" with
+      | [n, v] => v.toInt?.map fun x => (n.toUTF8.toList, x)
+      | _ => none
+    pure { f with enums := f.enums ++ [(path.toUTF8.toList, its)] }
+  | ["#leafref", path, h] =>
+    match lrefOf h with
+    | some l => some { f with lrefs := f.lrefs ++ [(path.toUTF8.toList, l)] }
+    | none => none
+  | ["#type", path, d] => (nodeTyOf d).map fun t => { f with types := f.types ++ [(path.toUTF8.toList, t)] }
+  | _ => some f
+
+/-- dump: header lines `#<kind> …` (schema facts, optional), then one line per element
+`<depth> <module> <name> <kind> <value-hex> <basetype>` in document order -/
+def parseDumpF (b : Bytes) : Option (Doc × Facts) := do
   let lines := ((bstr b).splitOn "\n").filter (· ≠ "")
   let mut elems : Array Elem := #[]
+  let mut facts : Facts := {}
   let mut stack : Array Nat := #[]      -- stack[k] = number of the last element seen at depth k
   for l in lines do
+    if l.startsWith "#" then
+      facts ← addFact facts (l.splitOn " ")
+    else
     match l.splitOn " " with
     | [dep, mod, name, kind, val, bt] =>
       let k ← dep.toNat?
@@ -42,7 +92,9 @@ def parseDump (b : Bytes) : Option Doc := do
                             btype := bt.toUTF8.toList }
       stack := (stack.extract 0 k).push elems.size
     | _ => none
-  pure { elems }
+  pure ({ elems }, facts)
+
+def parseDump (b : Bytes) : Option Doc := (parseDumpF b).map (·.1)
 
 def axisOf : String → Option Axis
   | "child" => some .child | "descendant" => some .descendant | "parent" => some .parent | "ancestor" => some .ancestor
@@ -210,7 +262,7 @@ def render : Except Err (Value Float) → String
   | .ok (.num n) => "ok num " ++ numTok n
   | .ok (.bool b) => "ok bool " ++ (if b then "1" else "0")
 
-def allMask : Nat := 8191
+def allMask : Nat := 32767
 
 /-- the expression of an `eval` / `find` request: THE TEXT, parsed by the model of libyang's parser; when the request also
 carries the pre-parsed prefix form (`ast-hex` other than `-`), both routes must give the same tree -/
@@ -229,11 +281,11 @@ def exprOf (exprH astH : String) : Except String Expr :=
 def run (mask : Nat) (ctx exprH astH dumpH : String) (findOnly : Bool) : String :=
   match ctx.toNat?, Hex.dec dumpH with
   | some c, some db =>
-    match exprOf exprH astH, parseDump db with
+    match exprOf exprH astH, parseDumpF db with
     | .error m, _ => m
-    | .ok e, some d =>
+    | .ok e, some (d, facts) =>
       if c > d.elems.size then "err NoTree" else
-      let env : Env := { doc := d, q := Quirks.ofMask mask, cur := 2 * c }
+      let env : Env := { doc := d, q := Quirks.ofMask mask, cur := 2 * c, facts }
       let r : Except Err (Value Float) := eval env e { node := 2 * c, pos := 1, size := 1 }
       if findOnly then
         match r with
